@@ -131,11 +131,17 @@ func aliasState(j *jobCtx, u Universe, path []Call) {
 	sortedOps(u, path)
 }
 
-// a caller-owned argument slice with spare capacity
-func argSlice() []int {
-	s := make([]int, 3, 8)
-	s[0], s[1], s[2] = 3, 1, 2
-	return s
+// caller-owned argument slices with spare capacity: short, 16 and 40 elements
+func argSlices() [][]int {
+	var out [][]int
+	for _, lc := range [][2]int{{3, 8}, {16, 40}, {40, 64}, {1, 1}} {
+		s := make([]int, lc[0], lc[1])
+		for i := range s {
+			s[i] = (i*5 + 3) % 7
+		}
+		out = append(out, s)
+	}
+	return out
 }
 
 func argOps(j *jobCtx, u Universe, path []Call) {
@@ -184,12 +190,26 @@ func argOps(j *jobCtx, u Universe, path []Call) {
 				scribble(reflect.ValueOf(arg))
 			})
 		} else {
-			arg := argSlice()
-			ci = invoke(e, func() {
-				y = ac.run(arg)
-				e["before"] = contentOf(y)
-				scribble(reflect.ValueOf(arg))
-			})
+			for ai, arg := range argSlices() {
+				if ai > 0 {
+					e = aliasBase(x, "ScribbleArg")
+					e["method"] = ac.name
+				}
+				e["spare"] = cap(arg) - len(arg)
+				arg := arg
+				ci = invoke(e, func() {
+					y = ac.run(arg)
+					e["before"] = contentOf(y)
+					scribble(reflect.ValueOf(arg))
+				})
+				if ai < 3 {
+					e["panic"], e["pmsg"], e["out"] = ci.Panic, ci.PMsg, ci.Out
+					if y != nil && !ci.Panic {
+						e["after"] = contentOf(y)
+					}
+					emit(e)
+				}
+			}
 		}
 		e["panic"], e["pmsg"], e["out"] = ci.Panic, ci.PMsg, ci.Out
 		if y != nil && !ci.Panic {
@@ -302,7 +322,11 @@ func jobAlias(j *jobCtx) {
 		if !j.quick() {
 			limit = 400
 		}
-		for _, p := range enumStates(u, limit, isMut(x0)) {
+		paths := enumStates(u, limit, isMut(x0))
+		if bp := bigStatePath(x0); bp != nil {
+			paths = append(paths, bp)
+		}
+		for _, p := range paths {
 			if budgetExceeded() {
 				extraStats["tour_truncated"] = true
 				return
